@@ -122,13 +122,23 @@ def catalogue_classes():
     return _CATALOGUE
 
 
-def strategy(tier):
-    fams = sorted(scenarios.SCENARIOS)
+def strategy(tier, families=None):
+    """Seed and knobs come from Hypothesis; the family is assigned round-robin over the catalogue (Hypothesis'
+    own choice among ~64 alternatives is far from uniform: 9 families were never drawn in 700 examples), so every
+    family receives the same share of every shard's budget.  The family is part of the recorded case, so a
+    replay does not depend on the counter."""
+    import itertools
+    fams = sorted(families or scenarios.SCENARIOS)
+    ctr = itertools.count()
+
+    def assign(d):
+        d = dict(d)
+        d["family"] = fams[next(ctr) % len(fams)]
+        return d
     return st.fixed_dictionaries({
-        "family": st.sampled_from(fams),
         "seed": st.integers(0, 2**31 - 1),
         "k": st.lists(st.integers(0, 63), min_size=8, max_size=8),
-    })
+    }).map(assign)
 
 
 def make_execute(obl, families=None):
